@@ -145,6 +145,7 @@ DESCR = {
     "InsertionSort": "Go's `sort.insertionSort` (`sort/zsortinterface.go`) — all of `sort.Sort` on at most 12 elements — loop by loop, for a total and for a partial (panicking / unmodelled) comparator",
     "Filters/Arr": "array filter bodies (compact concat join map reverse sort sort_natural first last uniq): the sorts exact up to 12 elements (insertion sort), a sorted permutation beyond; canonical sort form for results of more than 12 elements",
     "Filters/Json": "`json`, `inspect`, `type`: `encoding/json` marshalling of the value universe (float format switch, HTML-safe string escaping, base64, sorted map keys, structs, pointers, `time.Time`) and `%T`",
+    "Heap": "slice memory (C15/C03 no-write clause): `Store` of backing arrays, `SliceRef` arr/off/len/cap, programs `Prog` (read / write / alloc) with the interpreter `run` returning store and WRITE LOG; Go's `index`, element assignment, `reslice`, `make`, `append` (in place into spare capacity, else allocate), `copy`; `values.Convert(·, []any)` (a `[]any` without drops is passed through uncopied) and the bodies of compact concat join map reverse sort sort_natural first last uniq size default at that level; one filter application `stageF`, pipelines `runChain`; driver op `alias`",
     "TokenReSrc": "`parser.formTokenMatcher` as data (`StrExpr`, `TokenReSrc.pattern`: Sprintf/QuoteMeta/Join/range), `regexp.QuoteMeta`, the printer `Re.toGoSyntax` of the model's expressions in Go syntax (T4)",
     "Rex": "driver ops `rex`/`rexs`: decode an expression, print it, match it, answer like `FindStringSubmatchIndex`",
     "Generated/Writes": "written by translator T3 on every run: every store to a captured or package-level variable",
